@@ -135,6 +135,29 @@ def run(chk):
     asserts = [unparse(s.test).replace(" ", "") for s in ast.walk(cn.node) if isinstance(s, ast.Assert)]
     chk.ob("ensure-consistency", "canonicalise entry assertion", asserts[:2] == ["self.qnidx==0", "self.qnidx==self.site_num-1"], cn.where, asserts,
            ["self.qnidx==0 (to_right)", "self.qnidx==self.site_num-1 (else)"], line=cn.node.lineno)
+    # ---- canonical-form checks are mirror images of each other
+    chk.rule("check-mirror", "check_left_canonical tests sites 0..n-2 with check_lortho, check_right_canonical tests the mirror image 1..n-1 with check_rortho", 3)
+    from ..flow import sym_eval
+    import sympy as sp
+    N = sp.Symbol("N")
+    envN = {"len(self)": N, "self.site_num": N, "len(self._mp)": N}
+    rng = {}
+    for nm, meth in (("check_left_canonical", "check_lortho"), ("check_right_canonical", "check_rortho")):
+        fi = src.func(MP, f"MatrixProduct.{nm}")
+        loops = [n for n in ast.walk(fi.node) if isinstance(n, ast.For) and isinstance(n.iter, ast.Call) and unparse(n.iter.func) == "range"]
+        if len(loops) != 1:
+            raise AnalysisError(f"{fi.where}: site loop not found")
+        a = loops[0].iter.args
+        lo = sym_eval(a[0], envN) if len(a) == 2 else sp.Integer(0)
+        hi = sym_eval(a[-1], envN)
+        rng[nm] = (lo, hi)
+        used = [c.func.attr for c in ast.walk(loops[0]) if isinstance(c, ast.Call) and isinstance(c.func, ast.Attribute) and c.func.attr in ("check_lortho", "check_rortho")]
+        chk.ob("check-mirror", f"{nm} uses {meth}", used == [meth], fi.where, used, [meth], line=fi.node.lineno)
+    (ll, lh), (rl, rh) = rng["check_left_canonical"], rng["check_right_canonical"]
+    ok = sp.simplify(ll) == 0 and sp.simplify(lh - (N - 1)) == 0 and sp.simplify(rl - (N - 1 - (lh - 1))) == 0 and sp.simplify((rh - 1) - (N - 1 - ll)) == 0
+    chk.ob("check-mirror", "site ranges: left 0..n-2, right = mirror image 1..n-1", ok, f"{MP}::MatrixProduct.check_right_canonical", {"left": f"range({ll}, {lh})", "right": f"range({rl}, {rh})"},
+           {"left": "range(0, N-1)", "right": "range(1, N)"}, detail="a canonical-form check that skips a site reports a non-canonical state as canonical: ensure_*_canonical then "
+           "returns without sweeping and compress() / bond singular values work on a non-isometric site")
     # ---- tree push
     for nm, dec, mer in (("push_cano_to_parent", "decompose_to_parent", "merge_to_parent"), ("push_cano_to_child", "decompose_to_child", "merge_to_child")):
         fi = src.func(TREE, f"TTNS.{nm}")
